@@ -131,11 +131,11 @@ pub fn check_one(value: f64, acc: f32, max_den: u8, max_whole: u32, last_display
 // the callers: try_fraction / fit_fraction with the per-unit limits of a converter
 
 #[derive(Clone, Copy, Debug)]
-struct Limits {
-    enabled: bool,
-    accuracy: f32,
-    max_den: u8,
-    max_whole: u32,
+pub struct Limits {
+    pub enabled: bool,
+    pub accuracy: f32,
+    pub max_den: u8,
+    pub max_whole: u32,
 }
 
 fn or(a: FractionsConfigHelper, b: FractionsConfigHelper) -> FractionsConfigHelper {
@@ -144,7 +144,7 @@ fn or(a: FractionsConfigHelper, b: FractionsConfigHelper) -> FractionsConfigHelp
 
 /// reference: the limits the units files give a unit (layers in order: all, system, quantity, unit;
 /// a unit entry inherits what it leaves open, the other levels stand alone)
-fn limits_of(layers: &[Fractions], u: &Unit) -> Limits {
+pub fn limits_of(layers: &[Fractions], u: &Unit) -> Limits {
     let (mut all, mut metric, mut imperial) = (None, None, None);
     let mut quantity: std::collections::HashMap<PhysicalQuantity, FractionsConfigHelper> = Default::default();
     let mut unit: Option<FractionsConfigHelper> = None;
@@ -182,6 +182,19 @@ fn limits_of(layers: &[Fractions], u: &Unit) -> Limits {
     Limits { enabled: c.enabled.unwrap_or(false), accuracy: c.accuracy.unwrap_or(0.05).clamp(0.0, 1.0), max_den: c.max_denominator.unwrap_or(4).clamp(1, 16), max_whole: c.max_whole.unwrap_or(u32::MAX) }
 }
 
+/// `try_fraction` on a plain number keeps the unit and must give exactly what `new_approx` gives under the
+/// limits the units files define for that unit (or leave the number alone when that declines / is disabled)
+pub fn try_fraction_mismatch(conv: &Converter, layers: &[Fractions], unit: &Unit, v: f64) -> Option<String> {
+    let lim = limits_of(layers, unit);
+    let mut q: Quantity<Value> = Quantity::new(Value::Number(Number::Regular(v)), Some(unit.symbol().to_string()));
+    q.try_fraction(conv);
+    let expected = if lim.enabled { Number::new_approx(v, lim.accuracy, lim.max_den, lim.max_whole) } else { None }.unwrap_or(Number::Regular(v));
+    match q.value() {
+        Value::Number(n) if format!("{n:?}") == format!("{expected:?}") && q.unit() == Some(unit.symbol()) => None,
+        other => Some(format!("try_fraction of {v} {} gave {other:?} {:?}; the units files give this unit {lim:?}, under which the approximation is {expected:?}", unit.symbol(), q.unit())),
+    }
+}
+
 struct FracEnv {
     name: &'static str,
     conv: Converter,
@@ -205,6 +218,15 @@ fn frac_envs() -> Vec<FracEnv> {
         layers.extend(layer.fractions.clone());
         if let Ok(conv) = ConverterBuilder::new().with_units_file(UnitsFile::bundled()).and_then(|b| b.with_units_file(layer)).and_then(|b| b.finish()) {
             v.push(mk("bundled units + a layer with per-unit fraction limits", conv, layers));
+        }
+    }
+    // a later layer that changes system- and quantity-level settings which earlier per-unit entries inherit
+    let layer_src = "[fractions]\nimperial = { enabled = true, accuracy = 0.01, max_whole = 10 }\n[fractions.quantity]\nmass = { enabled = true, max_denominator = 2 }\n";
+    if let Ok(layer) = toml::from_str::<UnitsFile>(layer_src) {
+        let mut layers = base_layers.clone();
+        layers.extend(layer.fractions.clone());
+        if let Ok(conv) = ConverterBuilder::new().with_units_file(UnitsFile::bundled()).and_then(|b| b.with_units_file(layer)).and_then(|b| b.finish()) {
+            v.push(mk("bundled units + a layer changing system- and quantity-level fraction settings", conv, layers));
         }
     }
     v
@@ -250,6 +272,11 @@ fn check_fraction_op(env: &FracEnv, unit: &Arc<Unit>, start: f64, end: Option<f6
     };
     if !ok {
         return (None, false);
+    }
+    if op == "try_fraction" && end.is_none() {
+        if let Some(m) = try_fraction_mismatch(conv, &env.layers, unit, start) {
+            return (Some(Violation::new("try_fraction differs from the approximation under the unit's limits", format!("{} ({})", m, env.name), json!({"kind": "converter", "env": env.name, "unit": unit.symbol(), "start_bits": start.to_bits(), "end_bits": J::Null, "op": op}))), true);
+        }
     }
     let Some(new_unit) = q.unit_info(conv) else { return (None, false) };
     let lim = limits_of(&env.layers, &new_unit);
@@ -372,7 +399,7 @@ fn value_of(idx: u64, offsets: &[f64]) -> f64 {
 
 pub fn run(tier: Tier) {
     let c = ctx();
-    c.set_rule("complete grid: every cell of the 10^4-cell fraction lookup at 5 (thorough: 17) offsets inside the cell x 14 whole parts (0..6, 99..101, u32::MAX-1, u32::MAX, 2^32, 1e12) x 8 accuracies in [0,1] x every max_den 1..=64 x 6 whole limits, plus non-positive / non-finite / extreme inputs; plus the callers: every unit with fractions enabled of two converters (bundled; bundled + a layer with per-unit limits) x values (sixteenths, thirds, tenths) and ranges x {fit, try_fraction, convert to each system, convert within the system}: every fraction in the result must respect the limits the units files give the unit it ends up in (reference computation of the layered limits) and denote the converted input; oracle = the predicate of the property; non-trivial = new_approx returned Some; distinct = distinct (value, parameters) grid points with a Some result");
+    c.set_rule("complete grid: every cell of the 10^4-cell fraction lookup at 5 (thorough: 17) offsets inside the cell x 14 whole parts (0..6, 99..101, u32::MAX-1, u32::MAX, 2^32, 1e12) x 8 accuracies in [0,1] x every max_den 1..=64 x 6 whole limits, plus non-positive / non-finite / extreme inputs; plus the callers: every unit with fractions enabled of three converters (bundled; bundled + a layer with per-unit limits; bundled + a layer changing system- and quantity-level settings that earlier per-unit entries inherit) x values (sixteenths, thirds, tenths) and ranges x {fit, try_fraction, convert to each system, convert within the system}: every fraction in the result must respect the limits the units files give the unit it ends up in (reference computation of the layered limits) and denote the converted input; oracle = the predicate of the property; non-trivial = new_approx returned Some; distinct = distinct (value, parameters) grid points with a Some result");
     let offsets: &'static [f64] = tier.pick(&OFFSETS_Q[..], &OFFSETS_T[..]);
     let cells = 10_000u64;
     let total = cells * offsets.len() as u64 * 14;
